@@ -10,13 +10,14 @@ from props import packlib as P
 from props.C10 import sx  # s-expression reader (also raises the coqc stack limit)
 
 ID = "C08"
-THEOREMS = ["C08_resolution_sound", "C08_resolution_complete", "C08_resolution_unique", "C08_idx_is_git", "C08_idx_canonical"]
+THEOREMS = ["C08_resolution_sound", "C08_resolution_complete", "C08_resolution_unique", "C08_depth_boundary",
+            "C08_idx_is_git", "C08_idx_canonical"]
 MODEL_FILES = ["PackBytes.v", "Idx.v", "PackParse.v"]
 MODELLED = (
     "plumbing/format/packfile: Scanner (pack header, objectEntry: entry-size varint, OFS varint with "
     "ValidateOFSDeltaBase from Gen, REF id, bounded inflate, CRC-32, object id, packFooter), Parser.Parse / resolveDeltas "
     "(depth-first walk over children-by-hash and children-by-offset, first reach wins, external placeholder for thin packs), "
-    "processDelta, checkDeltaChainDepth, patchDeltaWriter; idxfile.Writer/Encode and revfile.Encode through Model/Idx.v "
+    "processDelta, checkDeltaChainDepth (uncached and cached path, both against the regenerated maxDeltaChainDepth), patchDeltaWriter; idxfile.Writer/Encode and revfile.Encode through Model/Idx.v "
     "(Model/PackParse.v). zlib inflate, the digest and CRC-32 are Section variables; when the model is evaluated they are "
     "instantiated by Go's compress/zlib run at every offset of the case's pack (harness `ztable`, stdlib only) and by "
     "executable SHA-1/SHA-256/CRC-32 (Spec/PackHash.v). Not modelled: where a base's content is taken from (memory, "
@@ -34,11 +35,30 @@ ASSUMPTIONS = [
 RULE = ("packs written by git pack-objects over generated histories (similar text files, empty and binary blobs, trees, commits, "
         "an annotated tag) with --window {0,1,10,50} x --depth {0,1,5,50} x --delta-base-offset on/off x --thin, sha1 and "
         "sha256 repositories, each parsed in one of six parser modes; plus valid hand-built packs (duplicates, REF before its "
-        "base, REF on OFS chains, empty objects, stored zlib blocks); non-trivial = the pack has a delta or more than 3 objects")
+        "base, REF on OFS chains, empty objects, stored zlib blocks); in both tiers six hand-built packs at the chain-depth "
+        "boundary: a blob and 4094 / 4095 / 4096 two-byte-insert deltas chained by OFS and by REF (4095 = maxDeltaChainDepth = "
+        "git's --depth maximum: accepted with git's idx/rev; 4096: rejected), model = the depth rule walked link by link; "
+        "non-trivial = the pack has a delta or more than 3 objects")
 
 MODES = ["stream", "seek", "memstore", "stream-memstore", "fs-low", "fs-high"]
 STORE_MODES = ["memstore", "stream-memstore", "fs-low", "fs-high"]
 MODEL_CAP = 12000   # packs above this many bytes are checked against git only (the model is not evaluated)
+GIT_MAX_DEPTH = 4095  # git pack-objects never writes a longer chain ((1 << OE_DEPTH_BITS) - 1); go-git's maxDeltaChainDepth
+DEEP = [4094, 4095, 4096]
+
+
+def deep_chain(hs, links, ref):
+    """a whole 2-byte blob and `links` deltas, each replacing its base by 2 other bytes (all objects distinct):
+    a few tens of KB, parsed in milliseconds, no history building"""
+    b = P.PackBuilder(hs)
+    cur = b"\xff\xff"
+    o = b.add("blob", cur)
+    for i in range(links):
+        nxt = struct.pack(">H", i)
+        delta = P.mk_delta(cur, nxt, ops=[("ins", nxt)])
+        o = b.add_ref(P.oid(hs, "blob", cur), delta) if ref else b.add_ofs(o, delta)
+        cur = nxt
+    return b.build()
 
 
 def handbuilt(rng, kind, hs):
@@ -104,7 +124,7 @@ class Main(Suite):
     coq_imports = "From GoGit Require Import Model.PackParse."
     quick_n = 32
     thorough_n = 160
-    coq_chunk = 6
+    coq_chunk = 2
 
     def gen(self, rng, n, tier):
         packs = []   # (bucket, hs, pack, store, repo)
@@ -145,15 +165,27 @@ class Main(Suite):
             packs.append(("git-big", 20, big.pack(["main"]), {}, big))
         zts = P.ztables([p[2] if len(p[2]) <= MODEL_CAP else b"" for p in packs])
         cases = []
+        # the chain-depth boundary (both tiers): the reply is the number of objects indexed, the model the depth rule
+        rot = rng.randrange(len(MODES))
+        for i, (links, ref) in enumerate((l, r) for r in (False, True) for l in DEEP):
+            cases.append({"bucket": "deep-%s-%d" % ("ref" if ref else "ofs", links), "kind": "parse", "fmt": "sha1",
+                          "mode": MODES[(rot + i) % len(MODES)], "pack": deep_chain(20, links, ref).hex(), "store": [],
+                          "zt": None, "repo": None, "countonly": True, "links": links})
+        deep = cases
+        cases = []
         for (bucket, hs, pack, store, repo), zt in zip(packs, zts):
             mode = rng.choice(STORE_MODES if store else MODES)
             cases.append({"bucket": bucket, "kind": "parse", "fmt": "sha256" if hs == 32 else "sha1", "mode": mode,
                           "pack": pack.hex(), "store": [{"t": t, "c": c.hex()} for t, c in store.values()],
                           "zt": zt if len(pack) <= MODEL_CAP else None,
                           "repo": repo.dir if (repo and store) else None})
-        return cases
+        # model evaluation cost grows with the bytes hashed: heaviest first, so that the parallel coqc workers stay balanced
+        cases.sort(key=lambda c: -len(c["pack"]) if c["zt"] is not None else 0)
+        return cases + deep
 
     def model_expr(self, c):
+        if c.get("links") is not None:
+            return "c08_chain %d" % c["links"]
         if c.get("zt") is None:
             return None
         hs = 32 if c["fmt"] == "sha256" else 20
@@ -184,6 +216,11 @@ class Main(Suite):
                 continue
             hs = 32 if c["fmt"] == "sha256" else 20
             pack = bytes.fromhex(c["pack"])
+            if c.get("links") is not None and c["links"] > GIT_MAX_DEPTH:
+                # beyond what git writes: the documented limit applies, the pack must be refused
+                if r["out"].startswith("( ok"):
+                    fails[c["id"]] = "accepted a delta chain of %d links (maxDeltaChainDepth is %d)" % (c["links"], GIT_MAX_DEPTH)
+                continue
             thin = bool(c["store"])
             repo = c.get("repo") if thin else None
             if thin and not (repo and os.path.isdir(repo)):
